@@ -65,6 +65,11 @@ type gengoCtx struct {
 
 	defers []func(ctx Context) error
 
+	// written remembers, per package, the generated files earlier Execute calls of this executor wrote:
+	// the universe was loaded before they existed, but they are stale all the same once a later call
+	// no longer produces them
+	written map[string]map[string]string
+
 	l logr.Logger
 }
 
@@ -188,6 +193,10 @@ func (c *gengoCtx) pkgExecute(pctx corecontext.Context, pkg string, generators .
 		}
 	}
 
+	for filename, fullFilename := range c.written[pkg] {
+		generatedFiles[filename] = fullFilename
+	}
+
 	gfs := sync.Map{}
 
 	for _, gen := range generators {
@@ -229,14 +238,25 @@ func (c *gengoCtx) pkgExecute(pctx corecontext.Context, pkg string, generators .
 			return err
 		}
 
-		delete(generatedFiles, gfile.Filename(c.args))
+		filename := gfile.Filename(c.args)
+
+		delete(generatedFiles, filename)
+
+		if c.written == nil {
+			c.written = map[string]map[string]string{}
+		}
+		if c.written[pkg] == nil {
+			c.written[pkg] = map[string]string{}
+		}
+		c.written[pkg][filename] = filepath.Join(p.SourceDir(), filename)
 	}
 
 	if len(generatedFiles) > 0 {
-		for _, fullFilename := range generatedFiles {
+		for filename, fullFilename := range generatedFiles {
 			if err := os.RemoveAll(fullFilename); err != nil {
 				return err
 			}
+			delete(c.written[pkg], filename)
 		}
 	}
 
